@@ -889,6 +889,18 @@ class Gen:
         def put(doc, val, fk=fk):
             tget(doc, p.file, p.path)[fk] = val
         size = 32 if fk == 'magic-field-type' else 16
+        if fk == 'total-size-field-type':
+            size = 64          # never narrower than the content size field type
+        if fk == 'content-size-field-type':
+            size = 8           # never wider than the total size field type
+            tot = tget(self.base.doc, p.file, p.path).get('total-size-field-type')
+            if isinstance(tot, dict) and isinstance(tot.get('size'), int) and tot['size'] < 8:
+                return
+        if 'timestamp' in fk:
+            # a timestamp feature needs the default clock type of its data stream type
+            dstn = tget(self.base.doc, p.file, p.path[:-2]) if len(p.path) >= 2 else {}
+            if not (isinstance(dstn, dict) and dstn.get('$default-clock-type-name')):
+                return
         pos = D.Pos(p.file, p.path, p.kind, (p.loc or '') + 'feature:' + fk, cls=None, name=fk)
         self.class_variant_ops(pos, put, ('uint', 'uenum'), fk, base_size=size, touch=tuple(p.path) + (fk,))
 
@@ -1354,27 +1366,14 @@ def classify_accept(task, eff_text, base_eff):
     c = task['constraint']
     if c == 'duplicate-member-yaml-key':
         return 'NOTE-yaml-duplicate-key', paths
-    if c == 'total-size-lt-content-size':
-        return 'S3-total-size-narrower-than-content-size', paths
-    if c == 'integral-float':
-        return 'S19-integral-float-accepted-as-integer', paths
     if through_dyn or (task['cls'] == 'darray' and task['dialect'] == 3) or 'dyn-elem' in task['loc']:
         return 'S4-dynamic-array-unvalidated', paths
     if c == 'missing-required' and task['variant'] == 'length':
         return 'S14-static-array-length-not-required', paths
-    if c == 'integral-float':
-        return 'S19-integral-float-accepted-as-integer', paths
-    if c == 'invalid-identifier-doc-keyword':
-        return 'NEW-tsdl-keyword-list-incomplete', paths
     if task['dialect'] == 3 and task['kind'] in ('members', 'member-entry') and c in ('invalid-identifier',):
         return 'NEW-struct-member-name-pattern-not-enforced', paths
     if c == 'unknown-property' and task['kind'] == 'trace':
         return 'NEW-trace-object-unknown-property-accepted', paths
-    if task['dialect'] == 3 and task['loc'].startswith('pcx') and c in ('wrong-type', 'class-and-inherit-both',
-                                                                        'inherit-value-not-a-string'):
-        # config-pre-field-type-expansion looks for `field-type` at the wrong level of
-        # packet-context-field-type-extra-members: partial field types there are never validated
-        return 'NEW-pcx-members-partial-ft-not-validated', paths
     return 'NEW-%s' % c, paths
 
 
@@ -1458,8 +1457,19 @@ def run(ctx):
         for b in good:
             n = opcount[b.name]
             meta = {(t['base'], t['op']): t for t in all_single}
-            for _ in range(150):
+            made = 0
+            for _ in range(3000):
+                if made >= 150:
+                    break
                 i, j = ctx.rng.randrange(n), ctx.rng.randrange(n)
+                mi, mj = meta[(b.name, i)], meta[(b.name, j)]
+                # the second fault must not overwrite the first one: never a (valid) control variant, never
+                # two operators writing at the same position
+                if 'control-valid-variant' in (mi['constraint'], mj['constraint']):
+                    continue
+                if i == j or (mi['file'] == mj['file'] and mi['path'] == mj['path']):
+                    continue
+                made += 1
                 parts = [{k: meta[(b.name, x)][k] for k in ('constraint', 'variant', 'loc', 'kind', 'cls', 'certain', 'file', 'path')}
                          for x in (i, j)]
                 tasks.append({'base': b.name, 'dialect': b.dialect, 'op': i, 'pair': (i, j), 'constraint': 'pair',
